@@ -47,11 +47,18 @@ PRELUDE = r'''
 use core::marker::PhantomData;
 // the type generic enums are instantiated with: it converts from nothing (the impl is for EVERY instantiation)
 #[derive(Clone, Copy)] pub struct Nc;
+pub static TEXT_BAD: core::sync::atomic::AtomicU64 = core::sync::atomic::AtomicU64::new(0);
+pub static TEXT_CHECKED: core::sync::atomic::AtomicU64 = core::sync::atomic::AtomicU64::new(0);
+pub fn text_check(got: String, template: &str, n: String) {
+    TEXT_CHECKED.fetch_add(1, core::sync::atomic::Ordering::SeqCst);
+    if got != template.replace("{n}", &n) { TEXT_BAD.fetch_add(1, core::sync::atomic::Ordering::SeqCst); }
+}
 pub fn emit(k: &str, casts: &[(usize, i128)], mism: &[(i128, i64, i64)], checked: u64, errpayload_bad: u64) {
     let c: Vec<String> = casts.iter().map(|(i, v)| format!("[{},\"{}\"]", i, v)).collect();
     let m: Vec<String> = mism.iter().take(8).map(|(n, e, g)| format!("[\"{}\",{},{}]", n, e, g)).collect();
-    println!("OBS {{\"k\": {:?}, \"casts\": [{}], \"mismatches\": {}, \"first\": [{}], \"checked\": {}, \"bad_err_payload\": {}}}",
-             k, c.join(","), mism.len(), m.join(","), checked, errpayload_bad);
+    println!("OBS {{\"k\": {:?}, \"casts\": [{}], \"mismatches\": {}, \"first\": [{}], \"checked\": {}, \"bad_err_payload\": {}, \"text_checked\": {}, \"text_bad\": {}}}",
+             k, c.join(","), mism.len(), m.join(","), checked, errpayload_bad,
+             TEXT_CHECKED.swap(0, core::sync::atomic::Ordering::SeqCst), TEXT_BAD.swap(0, core::sync::atomic::Ordering::SeqCst));
 }
 '''
 
@@ -153,7 +160,7 @@ pub fn run() {{
     for n in {dom} {{
         let expect: i64 = match n {{ {table} _ => -1 }};
         let r = <En{guse} as core::convert::TryFrom<{repr_ty}>>::try_from(n as {repr_ty});
-        let got: i64 = match &r {{ Ok(v) => idx(v), Err(e) => {{ if e.input as i128 != n {{ bad += 1; }} -1 }} }};
+        let got: i64 = match &r {{ Ok(v) => idx(v), Err(e) => {{ if e.input as i128 != n {{ bad += 1; }} if (n as i128).rem_euclid(251) == 0 {{ text_check(e.to_string(), {json.dumps(c.get("errTemplate", "?"))}, format!("{{:?}}", n as {repr_ty})); }} -1 }} }};
         checked += 1;
         if got != expect {{ mism.push((n, expect, got)); }}
     }}
@@ -296,6 +303,14 @@ pub fn run() {{
                 if int(val) != c["discs"][idx]:
                     raise vlib.ToolError(f"TryFromRepr.tla's discriminant rule disagrees with rustc on {key}: "
                                          f"variant {idx}: spec {c['discs'][idx]}, rustc {val}")
+            # extension (TryFromRepr.tla DocErrTemplate): what the error prints
+            ext = chk.notes.setdefault("extension_error_texts", {"checked": 0, "mismatches": 0, "examples": []})
+            ext["checked"] += o.get("text_checked", 0)
+            if o.get("text_bad"):
+                ext["mismatches"] += o["text_bad"]
+                if len(ext["examples"]) < 10:
+                    ext["examples"].append(key)
+                log(f"EXTENSION-MISMATCH (not a C12 verdict) TryFromReprError text: {key}: {o['text_bad']} of {o['text_checked']} texts differ from {c.get('errTemplate')!r}")
             if o["mismatches"] or o["bad_err_payload"]:
                 chk.deviation(key, f"try_from disagrees with the cast on {o['mismatches']} of {o['checked']} integers "
                               f"(first: n, expected variant, got variant = {o['first'][:3]}); "
